@@ -3,7 +3,6 @@
 use proptest::collection::vec;
 use proptest::prelude::*;
 use scrut::escaping::Escaper;
-use scrut::rules::registry::RuleRegistry;
 use serde::{Deserialize, Serialize};
 use unicode_categories::UnicodeCategories;
 
@@ -228,7 +227,23 @@ pub fn check_case(c: &EscapeCase) -> V {
 
     // (K) verbatim vs escaped form
     let verbatim = text.map(|t| t == rendered).unwrap_or(false);
-    if surely_printable && !verbatim {
+    // printable text that would be read as test syntax (modifier, exit code, command) may -- and
+    // for the read-back (R) must -- be written in escaped form
+    let ambiguous = text
+        .map(|t| {
+            let (e, k, q) = crate::c08::r_expect_sep(t, false);
+            !(e == t && k == "equal" && q.is_empty())
+                || (t.len() >= 3
+                    && t.starts_with('[')
+                    && t.ends_with(']')
+                    && t[1..t.len() - 1].chars().all(|ch| ch.is_ascii_digit()))
+                || t.starts_with("$ ")
+                || t.starts_with("> ")
+                || t == "$"
+                || t == ">"
+        })
+        .unwrap_or(false);
+    if surely_printable && !verbatim && !ambiguous {
         return classify(format!(
             "printable content {:?} is not written verbatim but as {:?} ({:?})",
             lossy(content),
@@ -257,19 +272,19 @@ pub fn check_case(c: &EscapeCase) -> V {
         Ok(h) => h,
         Err(p) => return V::fail(format!("has_unprintable crashed: {p}")),
     };
-    if hu == verbatim {
+    if hu == verbatim && !(ambiguous && !hu && !verbatim) {
         return classify(format!(
             "has_unprintable={hu} but escaped_expectation wrote {:?} for {:?}",
             rendered,
             lossy(content)
         ));
     }
-    if !verbatim {
+    if !verbatim && hu {
         let ep = match guard(|| esc.escaped_printable(content)) {
             Ok(h) => h,
             Err(p) => return V::fail(format!("escaped_printable crashed: {p}")),
         };
-        if format!("{ep} (escaped)") != rendered {
+        if format!("{ep} (escaped)") != rendered && !no_eol_tail && !(content.starts_with(b"$ ") || content.starts_with(b"> ")) {
             return classify(format!(
                 "escaped_printable gives {ep:?} but escaped_expectation gives {rendered:?}"
             ));
@@ -278,10 +293,19 @@ pub fn check_case(c: &EscapeCase) -> V {
 
     // (R) read back as that kind of expectation
     let rule: Box<dyn scrut::rules::rule::Rule> = if verbatim {
-        match guard(|| RuleRegistry::default().make("equal", &rendered)) {
-            Ok(Ok(r)) => r,
-            Ok(Err(e)) => return V::fail(format!("equal rule for {rendered:?}: {e:#}")),
-            Err(p) => return V::fail(format!("equal rule crashed: {p}")),
+        match with_maker(|m| guard(|| m.parse(&rendered))) {
+            Ok(Ok(e)) => {
+                let (kind, _, optional, multiline) = e.unmake();
+                if kind != "equal" || optional || multiline {
+                    return classify(format!(
+                        "content {:?} is written verbatim but reads back as kind {kind} (optional={optional}, multiline={multiline})",
+                        lossy(content)
+                    ));
+                }
+                e.rule
+            }
+            Ok(Err(e)) => return classify(format!("verbatim {rendered:?} does not parse: {e:#}")),
+            Err(p) => return V::fail(format!("parse crashed: {p}")),
         }
     } else {
         match with_maker(|m| guard(|| m.parse(&rendered))) {
